@@ -327,6 +327,34 @@ def rule_concluded(ck: Check, repo: Repo) -> None:
             r.violation(f"{RP}.format_creator", f"[{show_valuation(d)}]", f"{leaf.outcome[1]}; expected {exp}", repo.loc(fc))
 
 
+def rule_document_name(ck: Check, repo: Repo, rid: str = "R6") -> None:
+    """The document is named after the project directory itself, however the root was spelled: the name must be taken
+    from the RESOLVED root (`..`, `.` and symlinked spellings have another last component)."""
+    r = ck.rule(rid, "DocumentName is the name of the resolved project root (independent of how the root is spelled)")
+    q = f"{RP}.ProjectReport.bill_of_materials"
+    fn = repo.func(q)
+    from ..rules import deep_text
+    hits = []
+    for c in ast.walk(fn):
+        if isinstance(c, ast.Call) and isinstance(c.func, ast.Attribute) and c.func.attr == "write" and c.args:
+            t = deep_text(fn, c.args[0])
+            if "DocumentName:" in t:
+                hits.append((t, c))
+    r.instance("DocumentName", {"lines": [t for t, _ in hits]})
+    if len(hits) != 1:
+        raise AnalysisError("bill_of_materials: DocumentName line not found exactly once")
+    t, node = hits[0]
+    m = re.search(r"\{(.+?)\}", t)
+    expr = m.group(1) if m else ""
+    ok = expr in ("Path(self.path).resolve().name", "self.path.resolve().name", "os.path.basename(os.path.realpath(self.path))")
+    if not ok:
+        r.violation(q, f"DocumentName is derived from {expr}",
+                    "only resolve() / realpath() removes `..`, `.` and symlinks from the root before its last component is taken:"
+                    " with `--root ..`, a root ending in `/..`, or a git sub-directory as cwd, the document is named `..` (or after"
+                    " the link) - the same project gives different documents depending on how the root is spelled", repo.loc(node))
+
+
+
 def run(ck: Check, repo: Repo) -> None:
     ck.explanation = (
         "Structure of the bill of materials decided on every path of bill_of_materials: both loops range over the"
@@ -340,6 +368,7 @@ def run(ck: Check, repo: Repo) -> None:
                       "tag-value parseability for file names with newlines"]
     ck.trust("CPython ast", "sa/tab.py")
     rule_document(ck, repo)
+    rule_document_name(ck, repo)
     rule_checksum(ck, repo)
     rule_concluded(ck, repo)
     # 'a File section for every covered file and for no other file': the covered set (shared with C03-R1/R2)
